@@ -113,10 +113,23 @@ Definition u_roundtrip_env (a : val) : val :=
   | _ => bad
   end.
 
+(* consecutive protect calls of a caller who only holds the DC's envelope (public-key or seed): [envelope; [[draws; data; sid] ...]] -> blobs *)
+Fixpoint encrypt_seq (e : envelope) (l : list val) : list val :=
+  match l with
+  | [] => []
+  | VL [VL [VB r1; VB r2; VB r3]; VB data; VS sid] :: rest => vres VB (encrypt_blob sym r1 r2 r3 data e sid) :: encrypt_seq e rest
+  | _ => [bad]
+  end.
+Definition u_encrypt_seq (a : val) : val :=
+  match a with
+  | VL [pe; VL calls] => match env_of_val pe with Some e => VL (encrypt_seq e calls) | None => bad end
+  | _ => bad
+  end.
+
 Open Scope string_scope.
 Definition units : list (string * (val -> val)) :=
   [ ("e2e.unprotect", u_unprotect); ("e2e.protect", u_protect); ("e2e.roundtrip", u_roundtrip);
-    ("e2e.roundtrip_env", u_roundtrip_env); ("e2e.protect_seq", u_protect_seq) ].
+    ("e2e.roundtrip_env", u_roundtrip_env); ("e2e.protect_seq", u_protect_seq); ("e2e.encrypt_seq", u_encrypt_seq) ].
 
 Fixpoint lookup (n : string) (l : list (string * (val -> val))) : option (val -> val) :=
   match l with
